@@ -64,6 +64,9 @@ class Walker:
             self.bind(target, values, env, stmt)
         return env
 
+    def elem_of(self, values) -> FrozenSet:
+        return frozenset({("elem", v) for v in values})
+
     def unpack(self, values, index, elt, env, stmt) -> FrozenSet:
         """Abstract value of element ``index`` when unpacking ``values``; clients may override."""
         return self.eval_expr(ast.Subscript(value=ast.Constant(value=None), slice=ast.Constant(value=index), ctx=ast.Load()), env) \
@@ -126,7 +129,7 @@ class Walker:
         if isinstance(st, (ast.For, ast.AsyncFor)):
             self.on_stmt(st, env)
             itv = self.eval_expr(st.iter, env)
-            elem = frozenset({("elem", v) for v in itv})
+            elem = self.elem_of(itv)
             cur = env
             brk: List[Env] = []
             for _ in range(self.loop_bound):
